@@ -28,14 +28,14 @@ META = {
                  'the model follows the implementation where the documentation is silent: += on a value that is not an array first discards it; Merge on an Undefined value makes it an empty array '
                  'even when nothing is merged; += of an EMPTY Array appends it as a member while a non-empty one is spliced; v[index] on an object without such a live slot discards the object; '
                  'containers compare / report Size() including removed slots',
-                 'while C12-number-ctor-uninit is open: the storage a value is constructed in has zero bytes at offset 8..15',
+                 'while C12-ctor-payload-uninit is open: the storage a value is constructed in has zero bytes at offset 8..15',
                  'while C12-assign-type-no-reset is open: operator=(ValueType) is applied to Undefined / True / False / Null values only',
                  'while C12-setptr-null is open: SetPointerToValue(nullptr) is applied to Undefined values only',
                  'while C12-append-moved-member is open: v += move(member of v) is applied only when the array has spare room',
                  'while C12-remove-string-key is open: Remove(const String&) on an object is applied only when the key length equals the slot count'],
 }
 # known findings of this harness; with VF_KF_MANUAL=1 the defines are passed directly (for ids not yet in known_findings.json)
-KF_CTOR = 'C12-number-ctor-uninit'
+KF_CTOR = 'C12-ctor-payload-uninit'
 KF_TYPE = 'C12-assign-type-no-reset'
 KF_NULLP = 'C12-setptr-null'
 KF_RMKEY = 'C12-remove-string-key'
@@ -165,6 +165,7 @@ def queries(tier):
     # the findings themselves
     qs.append(Q('UI', 'AP_SCALAR', SEL=3, W=0, kf_only=KF_CTOR))
     qs.append(Q('D', 'AP_STR', LEN_A=1, W=0, kf_only=KF_CTOR))
+    qs.append(Q('S1', 'AP_SCALAR', SEL=3, W=0, kf_only=KF_CTOR))              # the string constructors leave bytes 12..15 (read back as capacity)
     qs.append(Q('S1', 'AS_TYPE', SEL=10, kf_only=KF_TYPE))
     qs.append(Q('UI', 'AS_TYPE', SEL=3, kf_only=KF_TYPE))
     qs.append(Q('UI', 'SET_PTR', src='UI', SEL=1, kf_only=KF_NULLP))
